@@ -85,6 +85,31 @@ func %(fn)s() *Curve {
 		Name: "%(path)s", Q: fr.Modulus(), Order: new(big.Int).Set(&cp.Order), Cofactor: cp.Cofactor.BigInt(new(big.Int)),
 		A: cp.A.BigInt(new(big.Int)), D: cp.D.BigInt(new(big.Int)), Base: repAff(&cp.Base),
 	}
+	g.Lib = func(r Rep) any {
+		switch r.Sys {
+		case "aff":
+			p := aff(r)
+			return &p
+		case "proj":
+			p := proj(r)
+			return &p
+		case "ext", "ext1":
+			p := ext(r)
+			return &p
+		}
+		panic("bad system")
+	}
+	g.FromLib = func(p any) Rep {
+		switch t := p.(type) {
+		case *te.PointAffine:
+			return repAff(t)
+		case *te.PointProj:
+			return repProj(t)
+		case *te.PointExtended:
+			return repExt(t)
+		}
+		panic("bad type")
+	}
 	g.Ops = []Op{
 %(ops)s
 	}
